@@ -358,6 +358,31 @@ def pRemove (st : LStmts) (d : LDb) (i : Int) : LDb × Res Unit :=
 
 def pIds (d : LDb) : List Int := rowIds .id d.pl
 
+/-! ## histories -/
+
+inductive LOp where
+  | pAdd (r : Row PField)
+  | pUpdate (r : Row PField)
+  | pRemove (i : Int)
+  | eAddBack (r : Row EField) (throwIfDup : Bool)
+  | eRemove (l e : Int)
+  | eClear (l : Int)
+
+def lStep (st : LStmts) (d : LDb) : LOp → LDb
+  | .pAdd r => (pAdd st d r).1
+  | .pUpdate r => (pUpdate st d r).1
+  | .pRemove i => (pRemove st d i).1
+  | .eAddBack r f => (eAddBack st d r f).1
+  | .eRemove l e => (eRemove st d l e).1
+  | .eClear l => eClear d l
+
+def lRun (st : LStmts) (d : LDb) : List LOp → LDb
+  | [] => d
+  | op :: ops => lRun st (lStep st d op) ops
+
+/-- Invariant of reachable states: playlist ids are bounded by the AUTOINCREMENT counter. -/
+def LDb.Wf (d : LDb) : Prop := idsBelow .id d.pl d.plSeq
+
 /-! ## Spec -/
 
 /-- **Spec.** The row `playlist_table::get` must return after `add r` assigned id
